@@ -1,4 +1,4 @@
-import HexProofs.Framework.Maintenance
+import HexProofs.Framework.Program
 import HexProps.C01
 /-
 C14 – Maintenance operations are idempotent and converge to the batch state.
@@ -12,7 +12,13 @@ followed by raw candles):
     and, for ANY tree, `purge()` removes every entry under every name of the tree and touches
     nothing else (from HexProofs/Writes);
   * `calculate_index(i)` on an index that holds a reading – addressed by its positive or by its
-    negative index – reproduces it (the candles do not change).
+    negative index – reproduces it (the candles do not change);
+  * after ANY program over {append, calculate, purge, recalculate, calculate_index(±i) on computed
+    indices} that runs, a final `calculate()` gives exactly the batch result over the raw stream
+    seen so far, and raises exactly when the batch run raises (`program_converges_leaf`).
+Not covered here: trees with helpers (`calculate_index(-1)` and `purge` are known to misbehave
+there, see known_findings), the Hexital façade operations `add_indicator` / `remove_indicator`,
+collapsing timeframes; the full statement is `C14_FULL`.
 -/
 namespace Hex.C14
 open Hex Hex.C01
@@ -98,6 +104,45 @@ theorem calculate_index_negative_reproduces_leaf (s : IndState F) (hl : IsLeaf s
   simp only [hcs, stepLeaf_computed s.tree K raw₁ raw₂ done hp₁ hr j hj]
   rfl
 
+/-- **Convergence to the batch state.**  Start from a freshly constructed indicator over raw
+candles; run any program over the operation alphabet (every `append` chunk raw, every
+`calculate_index` aimed – by positive or negative index – at a candle that holds a reading, no
+operation raising).  Then a final `calculate()` ends with exactly the candles of one batch
+`calculate()` over all candles received, and raises iff that batch run raises. -/
+theorem program_converges_leaf (ind : Ind F) (hl : IsLeaf ind) (K : Contract ind)
+    (init : List (Candle F)) (hinit : RawInput init) (ops : List (Op F)) (s : IndState F)
+    (hruns : Runs ({ tree := ind, mgr := { cfg := {}, candles := init } } : IndState F) ops s) :
+    candlesOf s.calculate = candlesOf (runBatch ind {} (init ++ (ops.map Op.added).flatten)) := by
+  rw [program_converges ind hl K init hinit ops s hruns]
+  have hres := (progInv_runs ind hl K ops init _ s
+    ⟨rfl, rfl, ⟨[], init, [], by simp, by simp, hinit, rfl, by simp⟩⟩ hruns).res
+  unfold runBatch
+  rw [runIndicator_refines ind hl K _ [] (by simpa using hres.plain)]
+  simp
+
+/-- **C14, partial: all covered kinds** (`Covered`: every shipped leaf class except the Amorph
+wrapper) as standalone indicators on the base timeframe: programs converge to the batch state. -/
+theorem C14_partial (k : Kind F) (name : String) (round : Nat) (hk : Covered name k)
+    (init : List (Candle F)) (hinit : RawInput init) (ops : List (Op F)) (s : IndState F)
+    (hruns : Runs ({ tree := mkTop k name round, mgr := { cfg := {}, candles := init } } : IndState F) ops s) :
+    candlesOf s.calculate
+      = candlesOf (runBatch (mkTop k name round) {} (init ++ (ops.map Op.added).flatten)) := by
+  obtain ⟨K⟩ := hk.contract round
+  exact program_converges_leaf _ (hk.isLeaf round) K init hinit ops s hruns
+
+/-- **C14 at full strength**: every shipped kind (composites included) inside a `Hexital`, the
+whole operation alphabet including `add_indicator` / `remove_indicator`, every timeframe.
+NOT proved: it is false today for trees with helpers (`calculate_index(-1)` hands the negative
+index to helper series; `purge` leaves second-level helper entries) – see known_findings; for
+leaf kinds the standalone-object part is `program_converges_leaf`. -/
+def C14_FULL (F : Type) [PyF F] : Prop :=
+  ∀ (k : Kind F) (name : String) (round : Nat) (init : List (Candle F)) (ops : List (Op F))
+    (s : IndState F),
+    (∀ p ∈ periods k, 1 ≤ p) → IsKey name → RawInput init →
+    Runs ({ tree := mkTop k name round, mgr := { cfg := {}, candles := init } } : IndState F) ops s →
+    ∃ out, candlesOf s.calculate = .ok out ∧
+      candlesOf (runBatch (mkTop k name round) {} (init ++ (ops.map Op.added).flatten)) = .ok out
+
 /-! ### non-vacuity: a finished SMA state -/
 
 def demoState : IndState Int := { tree := demoSMA, mgr := { cfg := {}, candles := demo } }
@@ -106,5 +151,18 @@ def demoState : IndState Int := { tree := demoSMA, mgr := { cfg := {}, candles :
 example : Resumable demoState.tree demoState.mgr.candles :=
   resumable_of_plain _ _ (by decide)
 example : smaColumn (candlesOf demoState.calculate) = some [none, some 3, some 3, some 4] := by decide
+
+/-- a program that runs on the demo: append, recompute the newest index by its negative index,
+purge, append again, recalculate, recompute index 1 -/
+def demoProgram : List (Op Int) :=
+  [.append (demo.take 2), .calcIndex (-1), .purge, .append (demo.drop 2 |>.take 1), .recalculate,
+   .calcIndex 1, .append (demo.drop 3)]
+
+example : ∃ s, Runs ({ tree := demoSMA, mgr := { cfg := {}, candles := [] } } : IndState Int) demoProgram s := by
+  have h : (runChecked ({ tree := demoSMA, mgr := { cfg := {}, candles := [] } } : IndState Int) demoProgram).isSome = true := by
+    decide +kernel
+  cases hr : runChecked ({ tree := demoSMA, mgr := { cfg := {}, candles := [] } } : IndState Int) demoProgram with
+  | none => rw [hr] at h; cases h
+  | some s => exact ⟨s, runs_of_runChecked _ _ _ hr⟩
 
 end Hex.C14
